@@ -47,6 +47,8 @@ pub enum Mutator {
     Modified,
     AddTag,
     RemoveTag,
+    /// a user tag with characters other than ASCII letters
+    AddOddTag,
     AddSyntheticTag,
     AddAnnotation,
     RemoveAnnotation,
@@ -56,6 +58,10 @@ pub enum Mutator {
     RemoveUdaReserved,
     AddDep,
     RemoveDep,
+    /// a dependency on a task that does not exist
+    AddDepMissing,
+    /// a second annotation at another time
+    AddAnnotation2,
     /// generic set_value on an arbitrary property
     SetValue(String, Option<String>),
 }
@@ -165,6 +171,9 @@ fn model_call(held: &mut Props, refreshed: &mut bool, m: &Mutator) -> Result<Vec
         Mutator::DueNone => set(held, refreshed, &mut out, "due", None),
         Mutator::Modified => set(held, refreshed, &mut out, "modified", ts(t1())),
         Mutator::AddTag => set(held, refreshed, &mut out, "tag_work", Some("".into())),
+        Mutator::AddOddTag => set(held, refreshed, &mut out, "tag_\u{e9}t\u{e9}_2", Some("".into())),
+        Mutator::AddDepMissing => set(held, refreshed, &mut out, &format!("dep_{}", Uuid::from_u128(0xC3)), Some("".into())),
+        Mutator::AddAnnotation2 => set(held, refreshed, &mut out, &format!("annotation_{}", past().timestamp()), Some("older note".into())),
         Mutator::RemoveTag => set(held, refreshed, &mut out, "tag_work", None),
         Mutator::AddSyntheticTag => return Err(()),
         Mutator::AddAnnotation => set(held, refreshed, &mut out, &format!("annotation_{}", t1().timestamp()), Some("note".into())),
@@ -197,6 +206,12 @@ fn real_call(task: &mut Task, ops: &mut Vec<Operation>, m: &Mutator) -> Result<(
         Mutator::DueNone => task.set_due(None, ops),
         Mutator::Modified => task.set_modified(t1(), ops),
         Mutator::AddTag => task.add_tag(&work, ops),
+        Mutator::AddOddTag => match Tag::try_from("\u{e9}t\u{e9}_2") {
+            Ok(t) => task.add_tag(&t, ops),
+            Err(e) => Err(taskchampion::Error::Other(e)),
+        },
+        Mutator::AddDepMissing => task.add_dependency(Uuid::from_u128(0xC3), ops),
+        Mutator::AddAnnotation2 => task.add_annotation(Annotation { entry: past(), description: "older note".into() }, ops),
         Mutator::RemoveTag => task.remove_tag(&work, ops),
         Mutator::AddSyntheticTag => task.add_tag(&Tag::try_from("PENDING").unwrap(), ops),
         Mutator::AddAnnotation => task.add_annotation(Annotation { entry: t1(), description: "note".into() }, ops),
@@ -257,6 +272,9 @@ fn mutators(full: bool) -> Vec<Mutator> {
             Mutator::RemoveUda,
             Mutator::RemoveUdaReserved,
             Mutator::RemoveDep,
+            Mutator::AddOddTag,
+            Mutator::AddDepMissing,
+            Mutator::AddAnnotation2,
             Mutator::SetValue("status".into(), Some("completed".into())),
         ]);
     }
@@ -361,6 +379,22 @@ impl TaskSys {
                     let ann_key = format!("annotation_{}", t1().timestamp());
                     if p.contains_key(&ann_key) != t.get_annotations().any(|a| a.entry == t1() && Some(&a.description) == p.get(&ann_key)) {
                         return Err("read-back: annotation does not read back as stored".into());
+                    }
+                    // every stored tag_/annotation_ key that is well-formed reads back, and nothing else does
+                    let stored_tags: std::collections::BTreeSet<String> = p.keys().filter_map(|k| k.strip_prefix("tag_")).filter(|n| Tag::try_from(*n).is_ok_and(|t| t.is_user())).map(|s| s.to_string()).collect();
+                    let read_tags: std::collections::BTreeSet<String> = t.get_tags().filter(|x| x.is_user()).map(|x| x.to_string()).collect();
+                    if stored_tags != read_tags {
+                        return Err(format!("read-back: user tags read back as {read_tags:?} but {stored_tags:?} are stored"));
+                    }
+                    let stored_ann: std::collections::BTreeSet<(i64, String)> = p.iter().filter_map(|(k, v)| k.strip_prefix("annotation_").and_then(|n| n.parse::<i64>().ok()).map(|n| (n, v.clone()))).collect();
+                    let read_ann: std::collections::BTreeSet<(i64, String)> = t.get_annotations().map(|a| (a.entry.timestamp(), a.description)).collect();
+                    if stored_ann != read_ann {
+                        return Err(format!("read-back: annotations read back as {read_ann:?} but {stored_ann:?} are stored"));
+                    }
+                    let stored_deps: std::collections::BTreeSet<Uuid> = p.keys().filter_map(|k| k.strip_prefix("dep_")).filter_map(|d| Uuid::parse_str(d).ok()).collect();
+                    let read_deps: std::collections::BTreeSet<Uuid> = t.get_dependencies().collect();
+                    if stored_deps != read_deps {
+                        return Err(format!("read-back: dependencies read back as {read_deps:?} but {stored_deps:?} are stored"));
                     }
                     if p.get("github.id").map(|s| s.as_str()) != t.get_user_defined_attribute("github.id") {
                         return Err("read-back: user-defined attribute does not read back as stored".into());
